@@ -48,11 +48,20 @@ def build(desc):
                                                            del_childs=False (re-linking, PMux input bookkeeping)
     """
     comps = desc["comps"]
+    for d_ in desc.get("_decoys") or []:
+        # components that were created earlier in the same process and never added to this system (another design, a what-if
+        # variant): whatever their constructors left at class or module level must not reach this system
+        try:
+            mk_comp(dict(d_, name="__decoy"))
+        except Exception:      # noqa
+            pass
     plan = desc.get("_build") or {}
     det = plan.get("detour")
     order = plan.get("phase_order", "normal")
     bridge = plan.get("bridge")
     retouch = plan.get("retouch")
+    if retouch and any(c["name"] == retouch["x"] and c.get("pconf") is not None for c in comps):
+        retouch = None          # the plan is for a component WITHOUT a phase configuration (a stream gave it one afterwards): not applicable
     dup = plan.get("dupbridge")
     moved = plan.get("moved")
     pre = plan.get("presolve_rename")
